@@ -14,6 +14,8 @@ def _fs_units():
     cfgs += [("char16_t", 8, 0, 0, False, 3), ("char16_t", 8, 0, 1, False, 3), ("char16_t", 300, 0, 0, False, 2)]
     cfgs += [("wchar_t", 8, 0, 0, False, 2), ("wchar_t", 8, 0, 1, False, 2), ("wchar_t", 300, 0, 1, False, 2), ("char32_t", 16, 0, 1, True, 1)]
     cfgs += [("char", 254, 0, 1, True, 2), ("char", 55, 0, 0, True, 2), ("char", 300, 2, 1, True, 2), ("char16_t", 70000, 1, 1, True, 1)]
+    # the empty capacity: every growing operation has to be refused, also the ones that "always fit"
+    cfgs += [("char", 0, 0, 1, False, 1), ("char", 0, 2, 1, False, 1), ("wchar_t", 0, 0, 1, False, 1)]
     lay = ["packed", "sizefield", "strlen"]
     units = [dict(src="fstring_main.cpp")]
     for ct, n, l, t, th, w in cfgs:
@@ -117,7 +119,7 @@ PROPS["C01"] = dict(
           "(FNV-1a over operation, outcome, returned values and the observable state of all three strings after every step)."),
     probes=["reached_len_N", "op_at_len_N", "iterator_insert_at_end", "iterator_replace_empty_range", "search_with_defaulted_position",
             "strlen_layout_op_with_stale_bytes", "N255_default_constructed", "stream_short_reads", "stream_early_eof_reached",
-            "stream_underflow_threw", "stream_sink_refused", "aliasing_op", "strlen_layout_resize_grow", "single_pass_input_range", "bad_position_under_C01"],
+            "stream_underflow_threw", "stream_sink_refused", "aliasing_op", "strlen_layout_resize_grow", "single_pass_input_range", "bad_position_under_C01", "random_access_range_that_is_not_contiguous"],
     components=_FS_COMPONENTS, assumptions=_FS_ASSUME,
 )
 PROPS["C02"] = dict(
